@@ -92,8 +92,8 @@ CHECKS["C15"] = {
     "units": [
         unit("./internal", CORE_FILES, "^Harness_C15_Reverse_n[1-4]$", QT, flags={"labels": "^C15:"}),
         unit("./internal", CORE_FILES, "^Harness_C15_Reverse_n[56]$", T, flags={"labels": "^C15:"}),
-        unit("./internal/controller/ledger", ["ctrl/dbmodel.go", "ctrl/lib.go", "ctrl/c25.go", "ctrl/ops.go", "ctrl/ops_gen.go", "ctrl/revert.go", "ctrl/revert_gen.go", "ctrl/refreplay.go", "ctrl/events.go", "ctrl/events_gen.go", "ctrl/c36.go", "ctrl/c28.go", "ctrl/schema.go", "ctrl/conc.go", "ctrl/c37.go", "ctrl/c13fields.go"], "^Harness_REVC_", QT, flags={"labels": "^C15:", "max-decisions": 4000}, reach=["end"]),
-        unit("./internal/controller/ledger", ["ctrl/dbmodel.go", "ctrl/lib.go", "ctrl/c25.go", "ctrl/ops.go", "ctrl/ops_gen.go", "ctrl/revert.go", "ctrl/revert_gen.go", "ctrl/refreplay.go", "ctrl/events.go", "ctrl/events_gen.go", "ctrl/c36.go", "ctrl/c28.go", "ctrl/schema.go", "ctrl/conc.go", "ctrl/c37.go", "ctrl/c13fields.go"], "^Harness_REVS_", QT, flags={"labels": "^C15:", "max-decisions": 4000}, reach=["end"]),
+        unit("./internal/controller/ledger", ["ctrl/dbmodel.go", "ctrl/lib.go", "ctrl/c25.go", "ctrl/ops.go", "ctrl/ops_gen.go", "ctrl/revert.go", "ctrl/revert_gen.go", "ctrl/refreplay.go", "ctrl/events.go", "ctrl/events_gen.go", "ctrl/c36.go", "ctrl/c28.go", "ctrl/schema.go", "ctrl/conc.go", "ctrl/c37.go", "ctrl/c13fields.go", "ctrl/nativebun.go", "ctrl/export.go"], "^Harness_REVC_", QT, flags={"labels": "^C15:", "max-decisions": 4000}, reach=["end"]),
+        unit("./internal/controller/ledger", ["ctrl/dbmodel.go", "ctrl/lib.go", "ctrl/c25.go", "ctrl/ops.go", "ctrl/ops_gen.go", "ctrl/revert.go", "ctrl/revert_gen.go", "ctrl/refreplay.go", "ctrl/events.go", "ctrl/events_gen.go", "ctrl/c36.go", "ctrl/c28.go", "ctrl/schema.go", "ctrl/conc.go", "ctrl/c37.go", "ctrl/c13fields.go", "ctrl/nativebun.go", "ctrl/export.go"], "^Harness_REVS_", QT, flags={"labels": "^C15:", "max-decisions": 4000}, reach=["end"]),
     ],
 }
 
@@ -115,7 +115,7 @@ CHECKS["C03"] = {
     ],
 }
 
-CTRL_FILES = ["ctrl/dbmodel.go", "ctrl/lib.go", "ctrl/c25.go", "ctrl/ops.go", "ctrl/ops_gen.go", "ctrl/revert.go", "ctrl/revert_gen.go", "ctrl/refreplay.go", "ctrl/events.go", "ctrl/events_gen.go", "ctrl/c36.go", "ctrl/c28.go", "ctrl/schema.go", "ctrl/conc.go", "ctrl/c37.go", "ctrl/c13fields.go"]
+CTRL_FILES = ["ctrl/dbmodel.go", "ctrl/lib.go", "ctrl/c25.go", "ctrl/ops.go", "ctrl/ops_gen.go", "ctrl/revert.go", "ctrl/revert_gen.go", "ctrl/refreplay.go", "ctrl/events.go", "ctrl/events_gen.go", "ctrl/c36.go", "ctrl/c28.go", "ctrl/schema.go", "ctrl/conc.go", "ctrl/c37.go", "ctrl/c13fields.go", "ctrl/nativebun.go", "ctrl/export.go"]
 CTRL_PKG = "./internal/controller/ledger"
 DBMODEL_ASSUME = [
     "dbmodel (harness/ctrl/dbmodel.go) stands for the SQL store below the controller's Store interface: tables as Go values, transactional write sets applied on Commit and dropped on Rollback, autocommit on a non-transactional handle, unique keys (ledger,id), (ledger,reference), (ledger,idempotency_key), (ledger,address), non-transactional sequences, 'a failed statement aborts the transaction', transaction_date() constant inside a transaction. It is trusted, not verified (no PostgreSQL in the sandbox)",
@@ -199,7 +199,7 @@ CHECKS["C31"] = {
 }
 
 
-BULK_EXTRA = [{"pkg": "internal/controller/ledger", "files": CTRL_FILES + ["ctrl/export.go"]}]
+BULK_EXTRA = [{"pkg": "internal/controller/ledger", "files": CTRL_FILES}]
 
 CHECKS["C32"] = {
     "level": "other",
@@ -524,4 +524,25 @@ CHECKS["C09"] = {
     "outside": "the hash value itself (opaque in the model: predecessor id only); recomputation from exported logs; more than two writers; the advisory-lock implementation of PostgreSQL",
     "assumptions": COMMON_ASSUME + CONC_ASSUME,
     "units": [conc_unit("^Harness_CONC_ids_sync$", "^(C09:|no-panic)"), py_unit("c10_hash", "c09-recompute", ["--prop", "C09"])],
+}
+
+
+SYS_EXTRA = [{"pkg": "internal/controller/ledger", "files": CTRL_FILES}]
+
+CHECKS["C11"] = {
+    "level": "other",
+    "explanation": "The real ledger state tracker (controllerFacade: handleState, BeginTX, Import, withLock, markInUse) wraps the real DefaultController (Export, Import, importLog and every write) on the store model. The statements the tracker issues itself on the *bun.Tx / connection it is given (UPDATE _system.ledgers SET state .. WHERE state = 'initializing'; SELECT setval(<sequence>, max(id)); SELECT .. FROM _system.ledgers) are opaque bun objects in the symbolic build, answered by the store model (state column transactional, setval non-transactional and strict); in the native replay build they run on real bun over a database/sql driver backed by the same model. A source ledger with the 5-write history (amounts symbolic in the _sym harness) is exported through the real Export, the stream is imported into a fresh ledger through the tracker; decided: export and import succeed, the copy's transactions (ids, postings, metadata, references, timestamps, revert marks, post-commit volumes), accounts, metadata, volumes, moves, schemas and logs (ids, types, payloads, hashes as the model chains them) equal the source's; the first write after the import — single request, or the atomic bulk's path Controller.BeginTX / write / Commit — succeeds, carries transaction and log ids max+1, moves the ledger to in-use, and the next write through the other path continues with max+2.",
+    "bounds": {"quick": "two source histories: 5 writes (3 transactions, 2 metadata writes; symbolic amounts in one harness) and that history extended by every request of the 24-operation list (reverts plain / at effective date / forced, metadata writes and deletes, schema insert, failing requests); 2 writes after the import, both orders of (single, atomic)", "thorough": "same"},
+    "outside": "the HTTP import / export handlers and the stream encoding (log decoding is under C38); the non-atomic bulk is a sequence of single requests (C32); PostgreSQL's own handling of explicit ids vs sequences is as the store model states it (an INSERT with an explicit id leaves the sequence alone; a drawn id that exists violates the unique index)",
+    "assumptions": COMMON_ASSUME + CONC_ASSUME,
+    "units": [unit("./internal/controller/system", ["system/c12.go"], "^Harness_C11_", QT, extra=SYS_EXTRA, flags={"labels": "^(C11:|no-panic)", "max-decisions": 6000}, reach=["end"])],
+}
+
+CHECKS["C12"] = {
+    "level": "other",
+    "explanation": "Same stack as C11. Decided: after an accepted write — a single request, or an atomic bulk (BeginTX / write / Commit) as the very first write — an import of a foreign stream whose log and transaction ids do not collide with anything is rejected with an import error and leaves the committed state untouched; an import whose first log id is not after the existing logs (symbolic id) is rejected without effect; a stream of three logs with symbolic ids on an empty ledger is accepted iff the ids increase, and no log is imported out of order; and, with the store model in concurrent mode, an import racing the first write of the ledger (single request or atomic bulk) in every interleaving at the store's statement boundaries ends in one of two ways: the import is accepted, is complete, and the write succeeds after it with ids following the imported ones — or the import is rejected as an import error with no effect and the write succeeds on the empty ledger. The ledger lock is the advisory lock the real code takes (session-level on a dedicated connection for Import, transaction-level for the first write), as the store model implements it.",
+    "bounds": {"quick": "2 logical threads (import of 2 logs x one write), all interleavings; 3 sequential scenarios", "thorough": "same"},
+    "outside": "several server processes (the tracker's in-memory copy of the state is per request here, as GetLedgerController builds it); imports of more than 2 logs under concurrency; PostgreSQL's advisory-lock implementation",
+    "assumptions": COMMON_ASSUME + CONC_ASSUME,
+    "units": [unit("./internal/controller/system", ["system/c12.go"], "^Harness_C12_", QT, extra=SYS_EXTRA, flags={"labels": "^(C12:|C11:|no-panic)", "max-decisions": 6000}, reach=["end"])],
 }
